@@ -48,6 +48,7 @@ type lifeState struct {
 	fresh            bool
 	cut              bool // the latest observation said "cancelled"
 	cutAny           bool // some observation on this path said "cancelled"
+	cutInWait        bool // ... and it was the Done case of a retry-wait select
 	timers           []timerRec
 	done             []*eng.Term
 	waited           bool
@@ -61,7 +62,7 @@ func (s lifeState) Key() string {
 	for _, l := range s.loops {
 		fmt.Fprintf(&sb, "%s:%d,%d,%d,%v;", l.id, l.iterExecs, l.chainExecs, l.exited, l.fbDone)
 	}
-	fmt.Fprintf(&sb, "|%s|%s,%v,%v,%v|", s.execLoop, s.obs.Key(), s.fresh, s.cut, s.cutAny)
+	fmt.Fprintf(&sb, "|%s|%s,%v,%v,%v%v|", s.execLoop, s.obs.Key(), s.fresh, s.cut, s.cutAny, s.cutInWait)
 	for _, t := range s.timers {
 		sb.WriteString(t.ch.Key() + "=" + t.dur.Key() + ";")
 	}
@@ -265,6 +266,9 @@ func (m *LifeMon) OnEvent(c *eng.Ctx, ms eng.MState, ev *eng.Event) eng.MState {
 		}
 		if di >= 0 && ev.Chosen == di {
 			s.obs, s.fresh, s.cut, s.cutAny = nil, false, true, true
+			if ti >= 0 {
+				s.cutInWait = true // Done won against the retry timer
+			}
 		}
 	case "recv":
 		for _, t := range s.timers {
@@ -639,7 +643,7 @@ func (m *LifeMon) onReturn(c *eng.Ctx, s lifeState, ev *eng.Event, batch bool) {
 			// the default action, and only in place of an empty action from post
 			okAct = sc == m.R.DefaultActionValue() && sc != "" && c.Eval(eng.Bin("==", s.lastVal, eng.ConstString(""))) == eng.TriTrue
 		}
-		ck("C01.R5", ok && okAct, "a successful run must return post's action, or the default action exactly when post returned the empty action; got "+act.Pretty())
+		ck("C01.R5,C03.R10", ok && okAct, "a successful run must return post's action, or the default action exactly when post returned the empty action; got "+act.Pretty())
 		ck("C05.R2", batch || !s.cutAny, "success reported on a path that observed the context as cancelled")
 		nonEmpty := false
 		if sc, isC := act.StringConst(); isC {
@@ -662,7 +666,11 @@ func (m *LifeMon) onReturn(c *eng.Ctx, s lifeState, ev *eng.Event, batch bool) {
 					found = true
 				}
 			}
-			ck("C05.R2", found, "a run cut short by cancellation must return an error wrapping ctx.Err(); got "+err.Pretty())
+			rule := "C05.R2"
+			if s.cutInWait {
+				rule += ",C20.R7" // the cancellation arrived during the retry wait
+			}
+			ck(rule, found, "a run cut short by cancellation must return an error wrapping ctx.Err(); got "+err.Pretty())
 		} else {
 			if batch && s.cutAny && s.nPost == 0 {
 				// a batch run that saw the cancellation and ends without post: the error must match the context's
